@@ -34,7 +34,7 @@ def pattern(tag, off, n):
     if base is None:
         b0 = _PAT.get(None)
         if b0 is None:
-            b0 = _PAT[None] = bytes(((j * 31 + (j >> 8) * 7 + 13) & 0xFF) for j in range(1 << 17))
+            b0 = _PAT[None] = bytes(((j * 31 + (j >> 8) * 7 + (j >> 16) * 3 + 13) & 0xFF) for j in range(1 << 17))
         sh = (tag * 101) & 0xFF
         base = b0.translate(bytes((v + sh) & 0xFF for v in range(256)))
         _PAT[tag] = base
@@ -73,6 +73,10 @@ class FSock:
         self.inprogress = False      # a connect() of this socket has answered "in progress"
         self.queue = []              # listener: connections waiting to be accepted
         self.served = None           # accepted connection: did onaccept_tcp give it a flow?
+        # a receiver that reads more slowly than the tunnel delivers (plan "slow"): the socket's send buffer has
+        # `space` bytes of room; see _slow_send
+        sl = plan.get("slow")
+        self.slow = {"space": sl.get("space", 0), "reads": [list(x) for x in sl.get("reads", [])], "refused": 0} if sl else None
         if plan.get("dial"):
             self.family = plan["dial"][2]
         if plan.get("family"):
@@ -200,6 +204,15 @@ class FSock:
             self.plan["fault"] = None
             self.w.rec["send"] = "p" if f == errno.EPIPE else "x"
             raise sock_err(f)
+        if self.slow is not None:
+            k = self._slow_send(len(b))
+            if k is not None:
+                if k == 0:
+                    self.w.rec["send"] = "a"
+                    raise sock_err(errno.EAGAIN)
+                self.wr += bytes(b[:k])
+                self.w.rec["send"] = "n%d" % k
+                return k
         r = rng.random()
         if self.w.eager:
             r = 0.5
@@ -209,6 +222,31 @@ class FSock:
         k = len(b) if r < 0.6 else rng.randint(0, len(b))
         self.wr += bytes(b[:k])
         self.w.rec["send"] = "n%d" % k
+        return k
+
+    def _slow_send(self, n):
+        """The peer behind this socket reads more slowly than the tunnel delivers (a paused player, a rate-limited
+        download, a destination on a slow link): the kernel's send buffer has `space` bytes of room, send() takes at
+        most that much of what it is offered (a short write) and answers would-block when there is no room.  The
+        peer reads again — room for `grant` more bytes — after `k` refused attempts, as scripted in `reads`
+        ([[k, grant], ...]); when the script is over it reads everything (returns None: the ordinary behaviour).
+        Also in the drain phase: the stall is finite because every refused attempt is counted.
+        Returns the number of bytes taken (0 = would-block)."""
+        sl = self.slow
+        if sl["space"] <= 0:
+            if not sl["reads"]:
+                self.slow = None
+                return None
+            sl["refused"] += 1
+            self.w.slow_ticks += 1
+            if sl["refused"] >= sl["reads"][0][0]:
+                sl["space"] = sl["reads"].pop(0)[1]
+                sl["refused"] = 0
+            return 0
+        k = min(n, sl["space"])
+        if k > 1 and self.w.rng.random() < 0.3:
+            k = self.w.rng.randint(1, k)
+        sl["space"] -= k
         return k
 
     def shutdown(self, how):
@@ -234,6 +272,7 @@ class Pipe:
         self.fail_reads = 0
         self.hist = b""             # every byte ever written into this direction of the link
         self.taken = 0              # how many of them read() has handed out (= taken off the descriptor)
+        self.stall = None           # {"after": successful writes before the link stalls, "refuse": write attempts refused}
 
     def fileno(self):
         return 5
@@ -242,6 +281,13 @@ class Pipe:
         return bool(self.buf) or self.eof or self.fail is not None
 
     def write(self, b):
+        st = self.stall
+        if st and self.flushed >= st["after"] and st["refuse"] > 0:
+            # the link does not drain for a while (slow uplink: the case latency control exists for); finite, also in
+            # the drain phase
+            st["refuse"] -= 1
+            self.w.slow_ticks += 1
+            return None
         if not self.w.eager and self.w.rng.random() < 0.2:
             return None
         self.buf += bytes(b)
@@ -357,6 +403,12 @@ def decode_frames(b):
     return out
 
 
+def queued_frames(m):
+    """the messages in a multiplexer's outgoing queue, whatever the split into queue entries (an entry is written to the
+    link whole or not at all by the harness pipe, so the queue always starts at a message boundary)"""
+    return decode_frames(b"".join(bytes(b) for b in m.outbuf))
+
+
 def frames_str(fr):
     return ";".join("%d,%s,%s" % (ch, CMDN.get(cmd, "OTHER%d" % cmd), digest(d)) for ch, cmd, d in fr)
 
@@ -430,6 +482,7 @@ class World:
         self.maxc, self.lbs, self.latency = maxc, lbs, latency
         self.platform = platform
         self.bad_accepts = 0
+        self.slow_ticks = 0         # refused attempts of slow receivers / a stalled link so far (they are finite: progress)
         self.unserved = []          # captured connections that got no flow although nothing excused it
         self.guard_missed = []      # connections to the client's own listener that were tunnelled all the same
         self.model_cut = None       # number of snapshots the model is compared on (None: all)
@@ -656,8 +709,14 @@ class World:
             server.io, server.sys = sv["server"]
         sm = cap["m"]
         # server.main queued an empty ROUTES message; the stream model starts without it
-        assert decode_frames(sm.outbuf[-1])[0][1] == 0x4207
-        sm.outbuf.pop()
+        # (a queue entry may hold several messages: take the ROUTES message, the last one queued, off the tail entry)
+        tail = bytes(sm.outbuf[-1])
+        routes = struct.pack("!ccHHH", b"S", b"S", 0, 0x4207, 0)
+        assert tail.endswith(routes) and decode_frames(b"".join(bytes(b) for b in sm.outbuf))[-1][1] == 0x4207
+        if len(tail) > len(routes):
+            sm.outbuf[-1] = tail[:-len(routes)]
+        else:
+            sm.outbuf.pop()
         self.mux["s"] = sm
         self.handlers["s"] = cap["h"]
         for side in ("c", "s"):
@@ -690,7 +749,8 @@ class World:
             if cmd == 0x4206 and w.latency and not w.asked[side]:
                 if w.iter_start_since_pong[side] > w.lbs:
                     w.over_budget.append({"side": side, "queued_since_ack_at_iteration_start": w.iter_start_since_pong[side],
-                                          "budget": w.lbs})
+                                          "budget": w.lbs, "the_multiplexer_s_own_count_at_that_moment": m.fullness,
+                                          "messages_in_its_queue": len(queued_frames(m)), "queue_entries": len(m.outbuf)})
             if cmd == 0x4201 and bytes(data) == b"rttest":
                 w.asked[side] = True
             w.since_pong[side] += len(data)
@@ -839,7 +899,7 @@ class World:
             if self.blocked[side] and self.mux[side].outbuf:
                 # (implementation only) select() has no timeout and nothing this end waits for can become ready by
                 # itself, yet a message is queued: it leaves only when the OTHER end happens to send something
-                fr = [f for b in self.mux[side].outbuf for f in decode_frames(bytes(b))]
+                fr = queued_frames(self.mux[side])
                 self.slept_queued.append({"side": side, "iteration": len(self.real_snaps),
                                           "queued": [CMDN.get(c, "%04x" % c) for _, c, _ in fr]})
             if self.latency:
@@ -890,9 +950,7 @@ class World:
     def end_str(self, side):
         ssnet = self.ssnet
         m = self.mux[side]
-        fr = []
-        for b in m.outbuf:
-            fr += decode_frames(bytes(b))
+        fr = queued_frames(m)
         wrap_fid = {}
         chans = set()
         for f, p in enumerate(self.prox[side]):
@@ -1074,6 +1132,24 @@ def gen_case(rng, profile, quick=True):
             c["maxc"] = rng.choice([1, 2, 3, 65535])
     if profile == "fault" and rng.random() < 0.15:
         c["platform"] = "win32"
+    if profile == "slow":
+        # a receiver (the local application, or the real destination) that reads more slowly than the tunnel delivers:
+        # its socket would-blocks / takes part of a chunk, a backlog of well over 64 KiB builds up in the wrapper that
+        # feeds it, it reads a bit, more frames arrive, ... (C01: all segmentations on the application / destination socket)
+        nflows = rng.choice([1, 1, 2])
+        c["iters"] = rng.choice([0, 6, 30])
+        c["latency"] = rng.random() < 0.8
+        c["lbs"] = rng.choice([32768, 32768, 8192, 65536])
+        big = False
+    if profile == "trickle":
+        # stream payload in SMALL segments from several flows at once, on a link that stops draining for a while: many
+        # small messages are queued behind one another between two flushes (C09: the budget counts ALL queued payload)
+        nflows = rng.choice([2, 3, 4])
+        c["lbs"] = rng.choice([1000, 2048, 4096, 8192])
+        c["latency"] = True
+        c["iters"] = rng.choice([0, 20, 60])
+        c["link_stall"] = {"side": rng.choice("ccs"), "after": rng.randint(0, 6), "refuse": rng.randint(20, 90)}
+        big = False
     for i in range(nflows):
         def size():
             if big:
@@ -1091,6 +1167,26 @@ def gen_case(rng, profile, quick=True):
             app["data"] = rng.choice([0, 1, 3, 50])
             dst["data"] = rng.choice([0, 1, 3, 50, 300])
             dst["connect"] = ["d"]
+        if profile == "slow" and i == 0:
+            total = rng.choice([100000, 120000, 131072])
+            slow = {"space": rng.choice([0, 0, 1000, 4096]),
+                    "reads": [[rng.randint(60, 130), rng.choice([1, 1000, 3000, 20000, 48000, 65536, 66000, 70000])],
+                              [rng.randint(4, 40), rng.choice([500, 2048, 5000, 70000])],
+                              [rng.randint(1, 20), rng.choice([1, 4096, 100000])]]}
+            fast = {"tag": 2, "data": total, "close": True, "p_recv": 1.0, "chunks": [2048, 4096, 65536]}
+            lazy = {"tag": 1, "data": rng.choice([0, 50]), "close": True, "p_recv": 1.0, "slow": slow}
+            if rng.random() < 0.6:
+                app, dst = lazy, dict(fast, connect=["d"])            # download to a slow application
+            else:
+                app, dst = fast, dict(lazy, connect=rng.choice([["d"], ["p", "d"]]))   # upload to a slow destination
+        if profile == "trickle":
+            seg = rng.choice([50, 100, 300, 700])
+            amount = min(30000, c["lbs"] * rng.choice([2, 3]) + rng.choice([0, 77]))
+            up = c["link_stall"]["side"] == "c"
+            app = {"tag": 2 * i + 1, "data": amount if up else rng.choice([0, 3]), "close": rng.random() < 0.8,
+                   "p_recv": 1.0, "chunks": [seg]}
+            dst = {"tag": 2 * i + 2, "data": rng.choice([0, 3]) if up else amount, "close": rng.random() < 0.8,
+                   "p_recv": 1.0, "chunks": [seg], "connect": ["d"]}
         if profile == "close":
             app["close"] = rng.random() < 0.9
             dst["close"] = rng.random() < 0.9
@@ -1170,6 +1266,10 @@ def run_case(ctx, case):
     w.noise = case.get("noise")
     if w.noise:
         w.add_noise_handlers()
+    ls = case.get("link_stall")
+    if ls:
+        # the link out of one end stops draining for a while after a few writes
+        (w.cs if ls["side"] == "c" else w.sc).stall = {"after": ls["after"], "refuse": ls["refuse"]}
     try:
         pending = [(dict(a), dict(d)) for a, d in case["flows"]]
         late = []
@@ -1220,10 +1320,12 @@ def run_case(ctx, case):
                     a, d = pending.pop(0)
                     w.new_flow(a, d)
                     w.iterate("c")
-                before = (w.state_str(), [s.produced for s in w.socks], len(w.cs.buf), len(w.sc.buf))
+                before = (w.state_str(), [s.produced for s in w.socks], len(w.cs.buf), len(w.sc.buf), w.slow_ticks,
+                          [s.connect_calls for s in w.socks if s.inprogress])   # a pending connect is progress, not calm
                 w.iterate("c")
                 w.iterate("s")
-                after = (w.state_str(), [s.produced for s in w.socks], len(w.cs.buf), len(w.sc.buf))
+                after = (w.state_str(), [s.produced for s in w.socks], len(w.cs.buf), len(w.sc.buf), w.slow_ticks,
+                         [s.connect_calls for s in w.socks if s.inprogress])   # a pending connect is progress, not calm
                 calm = calm + 1 if before == after else 0
                 if w.blocked["c"] and w.blocked["s"] and not w.woken("c") and not w.woken("s"):
                     calm = max(calm, 3)         # both ends sleep and nothing can wake them: this IS the final state
@@ -1238,6 +1340,22 @@ def run_case(ctx, case):
     finally:
         w.restore()
     return w
+
+
+def first_difference(got, written):
+    """where a delivered byte string stops being a prefix of the written one, and — when the wrong bytes are bytes that
+    were written elsewhere in the stream — where they come from (reordering / duplication rather than corruption)"""
+    n = next((i for i in range(min(len(got), len(written))) if got[i] != written[i]), min(len(got), len(written)))
+    det = {"first_wrong_byte_at_offset": n, "delivered": len(got), "written": len(written)}
+    # (later bytes brought forward are looked for first: the test pattern repeats itself at some distances)
+    src = -1
+    if len(got) >= n + 600:
+        src = written.find(got[n:n + 600], n)
+        if src < 0:
+            src = written.find(got[n:n + 600])
+    if src >= 0:
+        det["the_600_bytes_delivered_there_equal_those_written_at_offset"] = src
+    return det
 
 
 def faulty_flow(app, dst):
@@ -1272,10 +1390,12 @@ def check_oracles(w):
         if not stale:
             if not app.rd.startswith(dst.wr):
                 out["C01"].append(("bytes handed to the destination are not a prefix of what the application wrote",
-                                   {"flow": f, "dst_got": digest(dst.wr), "app_wrote": digest(app.rd)}))
+                                   dict({"flow": f, "dst_got": digest(dst.wr), "app_wrote": digest(app.rd)},
+                                        **first_difference(dst.wr, app.rd))))
             if not dst.rd.startswith(app.wr):
                 out["C01"].append(("bytes handed back to the application are not a prefix of what the destination wrote",
-                                   {"flow": f, "app_got": digest(app.wr), "dst_wrote": digest(dst.rd)}))
+                                   dict({"flow": f, "app_got": digest(app.wr), "dst_wrote": digest(dst.rd)},
+                                        **first_difference(app.wr, dst.rd))))
         if stale or faulty_flow(app, dst) or w.crash or te:
             continue
         if dst.shutdown_called and not (dst.wr == app.rd and app.eof_seen):
@@ -1355,7 +1475,7 @@ def check_oracles(w):
                 # (model: both wrappers of a flow are registered, or neither, once nothing is on the way —
                 # Stream_quiet / Stream_assert: the peer frees an identifier before it can see its re-use)
                 f160r = any(w.blocked[sd] and w.mux[sd].outbuf and
-                            all(c == 0x4204 for b in w.mux[sd].outbuf for _, c, _ in decode_frames(bytes(b))) for sd in ("c", "s"))
+                            all(c == 0x4204 for _, c, _ in queued_frames(w.mux[sd])) for sd in ("c", "s"))
                 out["C06"].append(("quiescent, yet one end has released a flow's identifier while the other end still has the "
                                    "flow registered under it and nothing is on the way that would release it: the next "
                                    "connection given that identifier reaches a peer that takes it for the old flow",
@@ -1364,7 +1484,7 @@ def check_oracles(w):
             if bool(mc.shut_write) != bool(ms.shut_read) or bool(mc.shut_read) != bool(ms.shut_write):
                 # (the consequence of F160 when an end sleeps on its queued STOP_SENDING for good)
                 f160 = any(w.blocked[sd] and w.mux[sd].outbuf and
-                           all(c == 0x4204 for b in w.mux[sd].outbuf for _, c, _ in decode_frames(bytes(b))) for sd in ("c", "s"))
+                           all(c == 0x4204 for _, c, _ in queued_frames(w.mux[sd])) for sd in ("c", "s"))
                 out["C02"].append(("quiescent, yet the two tunnel ends of a flow disagree on which directions are closed: one end "
                                    "has finished with the flow, the other keeps its handler, socket and identifier for good",
                                    {"flow": f, "client": [bool(mc.shut_read), bool(mc.shut_write)],
